@@ -51,7 +51,7 @@ structure Frame (s s' : St) : Prop where
   ctx : s'.ctx = s.ctx
   epoch : s'.epoch = s.epoch
   refs : s'.refs = s.refs
-  call : s'.call = s.call
+  call : s'.calls = s.calls
 
 theorem Frame.refl (s : St) : Frame s s := ⟨rfl, rfl, rfl, rfl, rfl⟩
 theorem Frame.trans {a b c : St} (h1 : Frame a b) (h2 : Frame b c) : Frame a c :=
@@ -115,12 +115,12 @@ theorem touch_startKey (s : St) (k : Nat) (force : Bool) : Touch k s (startKey s
 
 /-! ## the abstraction only reads `core` -/
 
-def absCore (epoch : Nat) : Option (Nat × Option Nat) → KSt
+def absCore : Option (Nat × Option Nat) → KSt
   | none => .absent
   | some (d, none) => .present d
-  | some (d, some e) => if e < epoch then .absent else .leaving d e
+  | some (d, some e) => .leaving d e
 
-theorem absKey_core (e : Nat) (r : Option Rec) : absKey e r = absCore e (core r) := by
+theorem absKey_core (r : Option Rec) : absKey r = absCore (core r) := by
   cases r with
   | none => rfl
   | some r =>
@@ -129,8 +129,8 @@ theorem absKey_core (e : Nat) (r : Option Rec) : absKey e r = absCore e (core r)
 
 theorem abs_eq (s s' : St) (hf : Frame s s') (hk : ∀ k, core (s'.key k) = core (s.key k))
     (hc : ∀ k, s'.ctors k = s.ctors k) : abs s' = abs s := by
-  have h1 : (fun k => absKey s'.epoch (s'.key k)) = fun k => absKey s.epoch (s.key k) := by
-    funext k; rw [absKey_core, absKey_core, hk, hf.epoch]
+  have h1 : (fun k => absKey (s'.key k)) = fun k => absKey (s.key k) := by
+    funext k; rw [absKey_core, absKey_core, hk]
   have h2 : s'.ctors = s.ctors := funext hc
   unfold abs delayOn
   rw [h1, h2, hf.cfg, hf.ctx, hf.epoch, hf.refs]
@@ -148,15 +148,15 @@ theorem failedOf_touch {k : Nat} {s s' : St} (h : Touch k s s') (k' : Nat) (hk :
 
 /-- a change of one key -/
 theorem abs_upd (s s' : St) (hf : Frame s s') (k : Nat) (v : KSt) (n : Nat)
-    (hk : ∀ k', k' ≠ k → core (s'.key k') = core (s.key k')) (hv : absKey s.epoch (s'.key k) = v)
+    (hk : ∀ k', k' ≠ k → core (s'.key k') = core (s.key k')) (hv : absKey (s'.key k) = v)
     (hc : ∀ k', k' ≠ k → s'.ctors k' = s.ctors k') (hn : s'.ctors k = n) :
     abs s' = { abs s with st := upd (abs s).st k v, nctor := upd (abs s).nctor k n } := by
-  have h1 : (fun k' => absKey s'.epoch (s'.key k')) = upd (fun k' => absKey s.epoch (s.key k')) k v := by
+  have h1 : (fun k' => absKey (s'.key k')) = upd (fun k' => absKey (s.key k')) k v := by
     funext k'
     simp only [upd]
     by_cases h : k' = k
-    · subst h; simp [hf.epoch, hv]
-    · simp only [h, if_false]; rw [absKey_core, absKey_core, hk k' h, hf.epoch]
+    · subst h; simp [hv]
+    · simp only [h, if_false]; rw [absKey_core, absKey_core, hk k' h]
   have h2 : s'.ctors = upd s.ctors k n := by
     funext k'
     simp only [upd]
@@ -193,19 +193,13 @@ theorem ctors_createKey (s : St) (k k' : Nat) :
 
 theorem frame_createKey (s : St) (k : Nat) : Frame s (createKey s k) := ⟨rfl, rfl, rfl, rfl, rfl⟩
 
-/-- no removal timer of a key in the map is due: holds whenever an API call executes -/
-def NoDueRm (s : St) : Prop :=
-  ∀ k r e, s.key k = some r → r.deferRemove = some e → ¬ e < s.epoch
-
-theorem inSet_abs (s : St) (h : NoDueRm s) (k : Nat) : (abs s).inSet k = (s.key k).isSome := by
+theorem inSet_abs (s : St) (k : Nat) : (abs s).inSet k = (s.key k).isSome := by
   simp only [ASt.inSet, abs]
   cases hr : s.key k with
   | none => rfl
   | some r =>
     simp only [absKey]
-    cases hd : r.deferRemove with
-    | none => rfl
-    | some e => simp [h k r e hr hd, KSt.inSet]
+    cases hd : r.deferRemove <;> rfl
 
 /-! ## folds over distinct keys -/
 
